@@ -25,7 +25,7 @@ RULE = (
     "RallyAssertionError; the driver's metrics store - or race control's, while it adds the metrics handed over after a step - failing on "
     "its n-th record, once or persistently (flush/close/externalise too); a "
     "track preparation task raising; a worker process killed at a drawn virtual time; user cancellation (KeyboardInterrupt in race "
-    "control's ask) at a drawn virtual time; or no fault; a third of the runner / parameter-source faults hit a partner task's request issued about when the completed-by task of its element ends. Non-trivial = the fault actually fired and the race had >= 2 workers. "
+    "control's ask) at a drawn virtual time; or no fault; a third of the runner / parameter-source faults hit a partner task's request issued about when the completed-by task of its element ends; in half of the parameter-source faults the task is one that its finite source ends (no iterations, no time period). Non-trivial = the fault actually fired and the race had >= 2 workers. "
     "Distinct = distinct canonical JSON."
 )
 ASSUMPTIONS = [
@@ -37,6 +37,7 @@ ASSUMPTIONS = [
 ]
 BUDGET = {"quick": 1200, "thorough": 8000}
 REQUIRED_CLASSES = {
+    "failing-source-is-the-one-that-ends-the-task": 5,
     "fired:runner-abort": 10, "fired:conn-error": 10, "fired:param-source": 10, "fired:runner-raises": 10, "fired:store-once": 10,
     "fired:store-persistent": 10, "fired:prep-task": 10, "fired:kill-worker": 10, "fired:cancel": 10, "no-fault": 8,
     "strict-task-beside-tolerant-task": 8, "tolerated-by-task": 5, "api-key-per-client-and-cluster-gone": 5, "exception-without-message": 10, "raised-outside-executor": 5,
